@@ -70,7 +70,8 @@ class FileGen:
         rnd = self.rnd
         n = rnd.choice([0, 1, 2, 5, 20]) if nrec is None else nrec
         recs = [self.record(lead if i == 0 else None) for i in range(n)]
-        pad = rnd.choice([0, 0, 1, 7, 63, 64, 200, 4000]) if pad is None else pad
+        # incl. lengths around page / buffer sizes (4 KiB, 8 KiB, 16 KiB, 64 KiB)
+        pad = rnd.choice([0, 0, 1, 7, 63, 64, 200, 4000, 4095, 4096, 4097, 4160, 8192, 8193, 16384, 16448, 65536, 65537]) if pad is None else pad
         return {'ver': 2, 'tmap': self.tmap(), 'recs': list(range(1, n + 1)), '_recs': recs, '_pad': pad}
 
     def block(self, kind, strings, minlogs=0):
@@ -119,7 +120,7 @@ class FileGen:
         rnd = self.rnd
         parts = []
         if big and rnd.random() < 0.08:      # a marker that straddles an I/O buffer boundary (4 / 8 / 16 KiB)
-            n = rnd.choice([4096, 8192, 16384]) - rnd.randrange(0, 24)
+            n = rnd.choice([4096, 8192, 16384, 65536, 65536, 131072]) - rnd.randrange(0, 24)
             parts.append(bytes((i * 31 + 7) % 251 + 1 for i in range(n)))
         for _ in range(rnd.randrange(0, 4)):
             r = rnd.random()
@@ -135,6 +136,13 @@ class FileGen:
             if not (decoy and t == E.TAG_THREADMAP):
                 while t in b:
                     b = b.replace(t, b'\x01' * len(t))
+        if decoy and rnd.random() < 0.3:
+            # the stackshot blob may hold bytes that LOOK like a whole thread-map section followed by an events section
+            # with a record (stale buffer contents): nothing of it is part of the dump
+            ghost = bytearray(rnd.getrandbits(8) for _ in range(64))
+            ghost[56:64] = struct.pack('<Q', 0x6706057)
+            b += (E.TAG_THREADMAP + struct.pack('<Q', 28) + E.threadmap_entry(ctid(3), cpid(4), b'ghost') +
+                  bytes(rnd.randrange(0, 9)) + E.TAG_EVENTS + struct.pack('<Q', 64) + bytes(8) + bytes(ghost) + bytes(8))
         return b
 
 
